@@ -22,13 +22,15 @@ Bounds == Small \cup Big
 \* strings that are not a bound at all
 Junk == {"-1", "x", "9223372036854775808", "18446744073709551616", "1.5", "0x1"}
 
+\* last positions in [2^63, 2^64): not representable as a signed 64-bit offset
+Over63 == {"9223372036854775809", "9223372036854775811", "9223372036854775818", "18446744073709551615"}
 Hdr(s) == "bytes=" \o s
 Cases ==
      {[h |-> Hdr(f.s \o "-" \o l.s), r |-> [kind |-> "closed", first |-> f.b, last |-> l.b], ws |-> FALSE] : f \in Bounds, l \in Bounds}
 \cup {[h |-> Hdr(f.s \o "-"), r |-> [kind |-> "open", first |-> f.b], ws |-> FALSE] : f \in Bounds}
 \cup {[h |-> Hdr("-" \o n.s), r |-> [kind |-> "suffix", n |-> n.b], ws |-> FALSE] : n \in {x \in Bounds : x.b.inf \/ x.b.v # 0}}
 \cup {[h |-> Hdr(j \o "-" \o l.s), r |-> [kind |-> "malformed"], ws |-> FALSE] : j \in Junk \ {"-1"}, l \in {x \in Small : x.b.v <= 1}}
-\cup {[h |-> Hdr(f.s \o "-" \o j), r |-> [kind |-> "malformed"], ws |-> FALSE] : j \in Junk, f \in {x \in Small : x.b.v <= 1}}
+\cup {[h |-> Hdr(f.s \o "-" \o j), r |-> [kind |-> "malformed"], ws |-> FALSE] : j \in Junk \cup Over63, f \in Small}
 \cup {[h |-> Hdr("-" \o j), r |-> [kind |-> "malformed"], ws |-> FALSE] : j \in Junk}
 \cup {[h |-> x, r |-> [kind |-> "malformed"], ws |-> FALSE]
         : x \in {"bytes=", "bytes", "bytes=-", "bytes=0", "bytes 0-1", "boats=0-1", "octets=0-", "=0-1", "0-1", "bytes=0-1-2", "bytes=a-b", "bytes=--1", "BYTES=0-1"}}
